@@ -4,9 +4,9 @@ CONSTANTS
   MaxNest = 3
   MaxSteps = 9
   ObjKeptInCatch = TRUE
-  ObjAfterMsg = FALSE
+  ObjAfterMsg = TRUE
   ClearActive = TRUE
-  FilterTry = "off"
+  FilterTry = "asfound"
   Emit = FALSE
 VIEW view
 INVARIANT ExcOK
